@@ -59,6 +59,23 @@ CeilDiv(x, y) == (x + y - 1) \div y
 NZeros(time, sr, fmin) == IF time = "primary" \/ fmin = 0 THEN 0 ELSE CeilDiv(sr, fmin)
 Window(time, M, sr, fmin) == LET n == M + NZeros(time, sr, fmin) IN [N |-> n, S |-> IF time = "residual" THEN M ELSE 0]
 
+\* upsampling ('rolloff') index model.  When the record has fewer than ppc points per cycle of the highest frequency
+\* (sr < ppc fmax) and a resampling rolloff is chosen, the record is first resampled by the integer factor
+\* k = ceil(ppc fmax / sr); its length becomes kM (lanczos), k(M - M mod 2) (fft: an odd record loses its last sample)
+\* or kM - 1 (linear: no sample beyond the last one); the sample rate becomes k sr.  Everything after that - the
+\* appended cycle, the window start, resp['t'] - is the Window of the RESAMPLED record at the NEW rate.  'prefilter'
+\* and 'none' never change the rate; a record of one sample is never resampled.
+Rolls == {"none", "prefilter", "linear", "lanczos", "fft"}
+Factor(roll, M, sr, fmax, ppc) ==
+  IF roll \in {"none", "prefilter"} \/ fmax = 0 \/ sr >= ppc * fmax \/ M <= 1 THEN 1 ELSE CeilDiv(ppc * fmax, sr)
+UpLen(roll, M, k) ==
+  IF k = 1 THEN M ELSE CASE roll = "lanczos" -> k * M [] roll = "fft" -> k * (M - (M % 2)) [] roll = "linear" -> k * M - 1
+UpWindow(roll, time, M, sr, fmin, fmax, ppc) ==
+  LET k == Factor(roll, M, sr, fmax, ppc)  M2 == UpLen(roll, M, k)  wd == Window(time, M2, k * sr, fmin)
+  IN [k |-> k, sr |-> k * sr, M |-> M2, N |-> wd.N, S |-> wd.S]
+UpCases == {<<roll, M, sr, fmin, fmax, ppc>> : roll \in Rolls, M \in {1, 2, 7, 8, 14}, sr \in {100, 128},
+                                              fmin \in {3, 7}, fmax \in {7, 40, 50}, ppc \in {4, 10}}
+
 VARIABLE q
 Points == {[stype |-> s, ic |-> i, time |-> t, peak |-> p, eqsine |-> e] : s \in Stypes, i \in Ics, t \in Times, p \in Peaks, e \in BOOLEAN}
 IndexCases == {<<M, sr, fmin>> : M \in {1, 2, 7}, sr \in {100, 128}, fmin \in {0, 3, 7, 50}}
@@ -72,6 +89,18 @@ IndexLaws == \A c \in IndexCases :
    /\ (q.time = "primary" => wd.N = c[1])
    /\ (q.time # "primary" /\ c[3] > 0 => (wd.N - c[1]) * c[3] >= c[2] /\ (wd.N - c[1] - 1) * c[3] < c[2])
 
+\* laws of the upsampling model: the rate is a multiple of the given one and meets ppc whenever the record was resampled;
+\* the resampled primary part spans no more time than the record (+ one old sample), and the residual window starts at its end
+UpLaws == \A c \in UpCases :
+   LET u == UpWindow(c[1], q.time, c[2], c[3], c[4], c[5], c[6]) IN
+   /\ u.sr = u.k * c[3] /\ u.k >= 1
+   /\ (c[1] \in {"none", "prefilter"} => u.k = 1 /\ u.M = c[2])
+   /\ (u.k > 1 => u.sr >= c[6] * c[5] /\ (u.k - 1) * c[3] < c[6] * c[5])
+   /\ u.M <= u.k * c[2] /\ (u.k > 1 => u.M >= u.k * (c[2] - 1))
+   /\ u.S \in {0, u.M} /\ (q.time = "residual" => u.S = u.M) /\ u.N >= u.M
+   /\ (q.time # "primary" => (u.N - u.M) * c[4] >= u.sr /\ (u.N - u.M - 1) * c[4] < u.sr)
+
 ExportPoint == Export => PrintT(<<"POINT", q, Quantity(q.stype), Offset(q.stype),
-                                  [c \in IndexCases |-> Window(q.time, c[1], c[2], c[3])]>>)
+                                  [c \in IndexCases |-> Window(q.time, c[1], c[2], c[3])],
+                                  [c \in UpCases |-> UpWindow(c[1], q.time, c[2], c[3], c[4], c[5], c[6])]>>)
 =============================================================================
